@@ -99,3 +99,66 @@ def find_call(stmts: list[ast.stmt], name: str) -> tuple[ast.Call, ast.stmt] | N
             if call_name(c) == name:
                 return c, st
     return None
+
+
+def scf_roundtrip(chk, repo: Repo, rule_prefix: str = "scf") -> None:
+    """E2: SecurityControlField.from_knx followed by to_knx is the identity on all 8 bits (no bit is dropped by the
+    reader or moved by the writer) — otherwise a tampered SCF bit would be invisible to the MAC, which is computed
+    over the re-serialised field."""
+    from .. import bits as B
+    from ..absmachine import AbsMachine, Obj, Outcome, UNKNOWN
+    from ..exctable import ExcTable
+    from ..explore import Explorer
+    from ..loader import NOFOLD
+
+    fk = repo.func(ASDU, "SecurityControlField.from_knx")
+    tk = repo.func(ASDU, "SecurityControlField.to_knx")
+    chk.unit(fk); chk.unit(tk)
+    raw = B.BitRec(tuple((i, 1, B.SymBits(f"b{i}", 1)) for i in range(8)))
+    cfg = CFG(fk.node)
+    box = {}
+
+    def call_model(c: ast.Call, env):
+        n = method_name(c)
+        tgt = repo.resolve(fk.module.name, n) if isinstance(c.func, ast.Name) else None
+        am = box["am"]
+        from ..loader import ClassInfo
+        if isinstance(tgt, ClassInfo) and repo.is_enum(tgt) and len(c.args) == 1:
+            return [Outcome(None, am.ev(c.args[0], env, {}))]  # Enum(v) is transparent on its member set
+        if isinstance(tgt, ClassInfo) and tgt.name == "SecurityControlField":
+            kw = tuple((k.arg, am.ev(k.value, env, {})) for k in c.keywords if k.arg)
+            init = tgt.methods.get("__init__")
+            if c.args and init is not None:
+                names = [a.arg for a in init.node.args.args][1:]
+                kw += tuple((nm, am.ev(a, env, {})) for nm, a in zip(names, c.args))
+            return [Outcome(None, Obj("SecurityControlField", "", kw))]
+        return None
+
+    am = AbsMachine(cfg, ExcTable(repo), call_model)
+    box["am"] = am
+    p0 = fk.node.args.args[0].arg
+    paths = Explorer(cfg, repo, am.step).run(cfg.entry, [], {p0: raw})
+    objs = [p.env.get("#ret") for p in paths if p.end == cfg.exit]
+    if len(objs) != 1 or not isinstance(objs[0], Obj):
+        raise AnalysisError("SecurityControlField.from_knx: not a single straight-line construction")
+    obj = objs[0]
+    cfg2 = CFG(tk.node)
+
+    def name_hook(e, env):
+        if isinstance(e, ast.Attribute) and isinstance(e.value, ast.Name) and e.value.id == "self":
+            return obj.get(e.attr)
+        return UNKNOWN
+
+    am2 = AbsMachine(cfg2, ExcTable(repo), lambda c, e: None, name_hook)
+    paths2 = Explorer(cfg2, repo, am2.step).run(cfg2.entry, [], {})
+    outs = [p.env.get("#ret") for p in paths2 if p.end == cfg2.exit]
+    ok = len(outs) == 1 and isinstance(outs[0], (B.BitRec,)) and B.eq(outs[0], raw) is True and len(B.to_fields(outs[0])) == 8
+    used = set()
+    for _, v in obj.fields:
+        fs = B.to_fields(v) if isinstance(v, (B.BitRec, B.SymBits)) else ()
+        for lo, w, x in fs or ():
+            if isinstance(x, B.SymBits):
+                used.add(x.name)
+    missing = sorted({f"b{i}" for i in range(8)} - used)
+    chk.ob(f"{rule_prefix}-reader-uses-all-bits", fk.site(), not missing, f"SecurityControlField.from_knx reads bits {sorted(used)}; dropped: {missing} (a dropped bit is not covered by the MAC, which is computed over to_knx())", key=f"{rule_prefix}|reader-bits")
+    chk.ob(f"{rule_prefix}-roundtrip-identity", tk.site(), ok, f"to_knx(from_knx(octet)) = {outs[0] if outs else None!r}; required: the same 8 bits at the same positions", key=f"{rule_prefix}|roundtrip")
